@@ -287,13 +287,18 @@ class Engine:
         st.pmem[(l, _pkey(proj))] = val
 
     # ---- one function ---------------------------------------------------------------------------------------
-    def run(self, f, depth, stack=(), start=0, ends=None, avoid=()):
-        """list of SPath over f's own parameters, or None when the path budget is exceeded"""
+    def run(self, f, depth, stack=(), start=0, ends=None, avoid=(), init=None):
+        """list of SPath over f's own parameters (or over the caller's terms when `init` binds the parameters to
+        argument expressions), or None when the path budget is exceeded"""
         roots = enum_paths(f, start=start, ends=ends, avoid=avoid)
         out = []
         seen_sig = set()
         for blocks in roots:
-            states = [_State()]
+            st0 = _State()
+            if init:
+                for i_, a_ in enumerate(init):
+                    st0.env[i_ + 1] = a_
+            states = [st0]
             for i, b in enumerate(blocks):
                 nxt = blocks[i + 1] if i + 1 < len(blocks) else None
                 for st in states:
@@ -452,9 +457,17 @@ class Engine:
         if outs is None and t["res"] == "item" and not generic.startswith(NEVER_INLINE):
             g = self.inlinable(callee, depth, stack)
             if g is not None and not (g.is_simple_accessor() and g.kind != "Closure"):
-                summ = self.summary(g, depth - 1, stack)
-                if summ:
-                    outs = [(sp, list(args)) for sp in summ]
+                carries_fn = any(isinstance(a, tuple) and a and ((a[0] == "agg" and a[1] in self.F.fns and self.F.fns[a[1]].kind == "Closure") or a[0] == "fnconst") for a in args)
+                if carries_fn:
+                    # a closure / fn item handed to a local function (`with_lock(|x| ..)`): run the callee with its
+                    # parameters bound to the actual arguments, so the call of the closure inside it is executed too
+                    ps = self.run(g, depth - 1, stack + (g.name,), init=list(args))
+                    if ps is not None and 0 < len(ps) <= self.callee_limit:
+                        outs = [(list(sp.atoms), list(sp.events), list(sp.stores), sp.ret) for sp in ps]
+                if outs is None:
+                    summ = self.summary(g, depth - 1, stack)
+                    if summ:
+                        outs = [(sp, list(args)) for sp in summ]
         if outs is None:
             val = f.call_expr(b, t, args, 0, False)
             if not (val[0] != "call" or generic in TRANSPARENT_CALLS):
@@ -764,6 +777,16 @@ def bool_outcomes(p):
         r, neg = r[2], not neg
     if r[0] == "const" and isinstance(r[1], (bool, int)):
         return [(list(p.atoms), bool(r[1]) != neg)]
+    # `x.is_some()` & co as the returned value: decided by a known constructor, else split into the two variants
+    if r[0] == "call" and len(r[2]) == 1:
+        for suffix, vt, vf in (("Option::<T>::is_some", "Some", "None"), ("Option::<T>::is_none", "None", "Some"),
+                               ("Result::<T, E>::is_ok", "Ok", "Err"), ("Result::<T, E>::is_err", "Err", "Ok")):
+            if r[1].endswith(suffix):
+                x = r[2][0]
+                known = p.variant_of(x)
+                if known in ((vt,), (vf,)):
+                    return [(list(p.atoms), (known == (vt,)) != neg)]
+                return [(list(p.atoms) + [("enum", x, (vt,), None, 10 ** 9)], not neg), (list(p.atoms) + [("enum", x, (vf,), None, 10 ** 9)], neg)]
     for a in p.atoms:
         if a[0] == "bool" and strip_site(unclone(a[1])) == strip_site(unclone(r)):
             return [(list(p.atoms), a[2] != neg)]          # the path has already decided this very value
